@@ -144,7 +144,7 @@ def sig_points(rnd, quick):
     xs = xs + [-x for x in xs[1:]]
     ys = [F(0), F(1, 2 ** 20), F(1, 2), F(3, 4), 1 - F(1, 2 ** 10), 1 - F(1, 2 ** 20)]
     ys = ys + [-y for y in ys[1:]]
-    nx = 10 if quick else 120
+    nx = 10 if quick else 300
     for _ in range(nx):
         k = rnd.random()
         if k < 0.5:
@@ -179,10 +179,12 @@ def sig_extras(case):
     b = AlgebraicSigmoid()
     a = jnp.float64(float(pf(case["arg"])))
     fn = case["fn"]
+    # tfp bijectors cache (x, y) pairs, so b.inverse(b.forward(a)) would return `a` without computing anything:
+    # the second map is applied by a fresh instance to a fresh array
     if fn == "forward":
-        case["roundtrip"] = float(b.inverse(b.forward(a)))
+        case["roundtrip"] = float(AlgebraicSigmoid().inverse(jnp.float64(float(b.forward(a)))))
     elif fn == "inverse":
-        case["roundtrip"] = float(b.forward(b.inverse(a)))
+        case["roundtrip"] = float(AlgebraicSigmoid().forward(jnp.float64(float(b.inverse(a)))))
     elif fn == "fldj":
         case["deriv"] = float(jax.grad(lambda t: b.forward(t))(a))
     else:
@@ -327,7 +329,7 @@ def gen_cop(ctx, rnd, cases):
             return rnd.choice([F(1, 2 ** 10), 1 - F(1, 2 ** 10), F(1, 2), F(1, 2 ** 20)])
         return F(rnd.randint(1, 1023), 1024)
 
-    nrand = 6 if ctx.quick else 150
+    nrand = 6 if ctx.quick else 300
     rhos = rho_fixed + [F(rnd.randint(-255, 255), 256) for _ in range(nrand)]
     groups = []
     for validate in (False, True):
@@ -650,12 +652,12 @@ def family_groups(rnd, spec):
 def gen_mvn(ctx, rnd, cases):
     import numpy as np
     specs = [dict(zip(SPEC_KEYS, s)) for s in MVN_SPECS_FIXED]
-    for _ in range(6 if ctx.quick else 90):
+    for _ in range(6 if ctx.quick else 200):
         specs.append(random_mvn_spec(rnd))
     groups = [(gen_mvn_group(rnd, spec), spec["rkmode"], spec["lpmode"], None) for spec in specs]
     fam_specs = [dict(zip(SPEC_KEYS, (3, "int", "pen", "none", "none", "none", 2, "default", "loc", False))),
                  dict(zip(SPEC_KEYS, (4, "dyadic", "pen", "none", "none", "none", 3, "default", "loc", True)))]
-    for _ in range(0 if ctx.quick else 12):
+    for _ in range(0 if ctx.quick else 30):
         sp = random_mvn_spec(rnd)
         sp["dim"] = max(sp["dim"], 2)
         sp["rank"] = rnd.randint(1, sp["dim"])
@@ -850,7 +852,7 @@ def gen_mvns(ctx, rnd, cases):
         (3, "int", "plain", "none", "none", "prec", 2, "default", "loc", False),
     ]
     specs = [dict(zip(SPEC_KEYS, s)) for s in specs]
-    for _ in range(2 if ctx.quick else 30):
+    for _ in range(2 if ctx.quick else 60):
         s = random_mvn_spec(rnd)
         if s["rkmode"] == "less":
             s["rkmode"] = "none"
